@@ -60,7 +60,8 @@ if __name__ == "__main__":
     args = [a for a in sys.argv[1:] if not a.startswith("--")]
     props = args or sorted(os.listdir(os.path.join(VERIF, "seeded_inbox")))
     for p in props:
-        for i in (1, 2, 3):
+        p, _, sel = p.partition(":")      # "C03b:3" = only seed 3 of C03b
+        for i in ([int(x) for x in sel.split(",")] if sel else (1, 2, 3)):
             try:
                 evaluate(p, i, others)
             except Exception as ex:
